@@ -554,13 +554,51 @@ def match_row(row, table_lines):
             return f"no '{head}' entry in the symbol table"
         if f"`{val}`" not in t[j + 1]:
             return f"{head}: `{val}` expected, page has {t[j + 1]!r}"
+        ind = row.get("independent")
+        if ind and head in ("symbol", "latex"):
+            # the same entry against a name computed without docs/printer_* (display_name / display_latex / own index)
+            m = re.search(r"`(.*)`", t[j + 1])
+            shown = m.group(1) if m else t[j + 1]
+            why = independent_mismatch(ind, head, shown)
+            if why:
+                return f"{head}: {why}"
         j += 2
+    return None
+
+
+def _nz(x: str) -> str:
+    """LaTeX names are compared up to grouping braces, backslashes (sympy turns `mu` into `\\mu`) and blanks"""
+    return re.sub(r"[{}\\\s]", "", x)
+
+
+def independent_mismatch(ind, head, shown):
+    if head == "symbol":
+        if "code" in ind:
+            return None if shown == ind["code"] else f"the live object is named `{ind['code']}` (display name / own index), page has `{shown}`"
+        return None if shown.startswith(ind["code_prefix"]) else f"name should start with `{ind['code_prefix']}`, page has `{shown}`"
+    if "latex" in ind:
+        return None if _nz(shown) == _nz(ind["latex"]) else f"the live object's LaTeX name is `{ind['latex']}` (up to braces), page has `{shown}`"
+    return None if _nz(shown).startswith(_nz(ind["latex_prefix"])) else f"LaTeX name should start with `{ind['latex_prefix']}`, page has `{shown}`"
+
+
+def index_consistency(row_code_shown, ind, formula_lines):
+    """an indexed member must appear in the page's formulas with the subscript its table entry shows"""
+    if not ind or ind.get("kind") != "indexed":
+        return None
+    m = re.fullmatch(re.escape(ind["base"]) + r"\[(\w+)\]", row_code_shown or "")
+    if not m:
+        return None
+    used = set()
+    for ln in formula_lines:
+        used |= set(re.findall(r"(?<![\w])" + re.escape(ind["base"]) + r"\[(\w+)\]", ln))
+    if used and m.group(1) not in used:
+        return f"table lists `{row_code_shown}` but the page's formula uses subscript(s) {sorted(used)}"
     return None
 
 
 def check_pages(ctx, sources, raw, ref, label="raw"):
     """F1-F4 on the pages before role processing"""
-    n_checked = n_formula = n_rows = 0
+    n_checked = n_formula = n_rows = n_indexed = 0
     term_order = []
     by_page = collections.defaultdict(list)
     for s in sources:
@@ -614,6 +652,8 @@ def check_pages(ctx, sources, raw, ref, label="raw"):
         if page_funcs != r["functions"]:
             ctx.violation(f"C19:functions:{s['stem']}", f"page {page} lists functions {page_funcs}, the module documents {r['functions']}",
                 dict(rep, kind="violation", observed=page_funcs, expected=r["functions"]))
+        formula_lines = [ln for (_n, ls), mm in zip(page_members, r["members"]) if mm["has_symbol"]
+            for ln in norm(split_member_block(ls)[0]) if ":code:" in ln]
         for (name, lines), m in zip(page_members, r["members"]):
             doc_lines, table = split_member_block(lines)
             if m.get("print_error"):
@@ -633,6 +673,12 @@ def check_pages(ctx, sources, raw, ref, label="raw"):
             why = match_row(m.get("row"), table)
             if m.get("row"):
                 n_rows += 1
+                if (m["row"].get("independent") or {}).get("kind") == "indexed":
+                    n_indexed += 1
+                    tn = norm(table)
+                    shown = next((re.search(r"`(.*)`", tn[q + 1]).group(1) for q in range(len(tn) - 1)
+                        if tn[q].lower().startswith("symbol") and re.search(r"`(.*)`", tn[q + 1])), None)
+                    why = why or index_consistency(shown, m["row"]["independent"], formula_lines)
             if why:
                 ctx.violation(f"C19:symbol-row:{s['stem']}:{name}",
                     f"page {page}, member {name}: symbol table does not show the live object's fields: {why}",
@@ -640,6 +686,7 @@ def check_pages(ctx, sources, raw, ref, label="raw"):
     ctx.coverage[f"pages_checked_{label}"] = n_checked
     ctx.coverage["formula_members_checked"] = n_formula
     ctx.coverage["symbol_rows_checked"] = n_rows
+    ctx.coverage["indexed_rows_checked"] = n_indexed
     return n_checked, n_formula, n_rows, term_order
 
 
